@@ -172,7 +172,7 @@ PAULI = {
 def build_gate(rng, dims, cplx_ok=True, gclass=None):
     """(matrix D x D, class name, is_unitary)"""
     D = int(np.prod(dims))
-    classes = ["int", "int", "gauss", "perm", "diag"]
+    classes = ["int", "int", "gauss", "gauss", "perm", "diag", "diagperm"]
     if all(d == 2 for d in dims):
         classes += ["pauli", "pauli"]
     if list(dims) == [2, 2]:
@@ -182,7 +182,7 @@ def build_gate(rng, dims, cplx_ok=True, gclass=None):
     if len(dims) == 2:
         classes += ["product", "lowrank"]
     if not cplx_ok:
-        classes = [c for c in classes if c not in ("gauss",)]
+        classes = [c for c in classes if c not in ("gauss", "diagperm")]
     gclass = gclass or rng.choice(classes)
     if gclass == "int":
         G = rand_array(rng, (D, D), False)
@@ -194,6 +194,12 @@ def build_gate(rng, dims, cplx_ok=True, gclass=None):
         G = np.zeros((D, D))
         for r, c in enumerate(p):
             G[r, c] = rng.choice([1.0, -1.0])
+    elif gclass == "diagperm":  # exact complex unitary that is neither symmetric nor real
+        p = list(range(D))
+        rng.shuffle(p)
+        G = np.zeros((D, D), dtype=complex)
+        for r, c in enumerate(p):
+            G[r, c] = rng.choice([1, -1, 1j, -1j])
     elif gclass == "diag":
         G = np.diag([rng.choice([1, -1, 1j, -1j]) if cplx_ok else rng.choice([1.0, -1.0]) for _ in range(D)])
     elif gclass == "pauli":
@@ -253,6 +259,25 @@ def eff_gate(G, dagger=False, transpose=False):
     if transpose:
         return G.T
     return G
+
+
+VARIANTS = ["plain", "transpose", "dagger", "both"]  # every (transpose, dagger) pair
+
+
+def kw_of(variant):
+    return {"plain": {}, "transpose": {"transpose": True}, "dagger": {"dagger": True},
+            "both": {"transpose": True, "dagger": True}}[variant]
+
+
+def asym_gate(rng, dims, G, gclass, unitary):
+    """for the non-plain variants the gate must tell G, G^T, conj G and G^dagger apart"""
+    def distinct(M):
+        return not (np.allclose(M, M.T) or np.allclose(M, M.conj()) or np.allclose(M, M.conj().T))
+    tries = 0
+    while not distinct(G) and tries < 20:
+        G, gclass, unitary = build_gate(rng, dims, gclass=("gauss" if tries % 2 == 0 else "diagperm"))
+        tries += 1
+    return G, gclass, unitary
 
 
 def dense_of(tn, outs):
@@ -458,7 +483,10 @@ def vector_case(ctx, col, stream, n, forced=None):
     dims = [phys[s] for s in where]
     G, gclass, unitary = build_gate(rng, dims, cplx_ok=True)
     as_tensor = rng.random() < 0.5
-    variant = rng.choice(["plain", "plain", "transpose", "dagger"])
+    rng.choice(VARIANTS)
+    variant = VARIANTS[n % 4]  # all four (transpose, dagger) pairs, evenly
+    if variant != "plain":
+        G, gclass, unitary = asym_gate(rng, dims, G, gclass, unitary)
     gate_factors = None
     if api == "with_tn" and ng == 2 and rng.random() < 0.6:
         # the gate as a two-tensor network joined by a bond of size r: G = sum_x A_x (x) B_x
@@ -479,7 +507,7 @@ def vector_case(ctx, col, stream, n, forced=None):
     if api in ("gate", "gate_inds") and ng == 3 and rng.random() < 0.3:
         contract = "auto-split-gate"  # degrades to lazy for 3+ sites
     if api == "tensor_gate":
-        contract, variant = True, ("transpose" if variant == "dagger" else variant)
+        contract, variant = True, ("transpose" if variant in ("dagger", "both") else variant)
     if api == "with_tn":
         contract = False
     inds = tuple(tn.site_ind(s) for s in where)
@@ -501,11 +529,7 @@ def vector_case(ctx, col, stream, n, forced=None):
     if n < 3:
         ctx.sample(desc)
 
-    kw = {}
-    if variant == "transpose":
-        kw["transpose"] = True
-    elif variant == "dagger":
-        kw["dagger"] = True
+    kw = kw_of(variant)
     before = tn.copy()
     Geff = eff_gate(G, **kw)
     ev, raised, after = [], None, None
@@ -608,16 +632,15 @@ def op_dense_expr(base, e0, outs, inds, G, dims, variant, after_tensors, e_after
     ol = tm.nlist([namer(o) for o in outs])
     il = tm.nlist([namer(i) for i in inds])
     Garr = np.asarray(G)
-    tr = "false"
-    if variant == "transpose":
-        tr = "true"
-    elif variant == "dagger":
-        tr, Garr = "true", Garr.conj()
+    kw = kw_of(variant)
+    tr = "true" if kw.get("transpose") else "false"
+    dg = "true" if kw.get("dagger") else "false"
     gshape = tm.nlist(list(dims) + list(dims))
     gdata = tm.glist(Garr.reshape(-1))
     dl2, tl2, _ = tm.net_literal(after_tensors, namer)
     m = min(int(e0), int(e_after))
-    return (f"check_gate {dl} {tl} {ol} {il} {tr} {gshape} {gdata} ({int(e0) - m})%Z {dl2} {tl2} ({int(e_after) - m})%Z")
+    # the options are handled INSIDE Coq as the code handles them (Model.gate_opts); the array is the caller's G
+    return (f"check_gate_opts {dl} {tl} {ol} {il} {tr} {dg} {gshape} {gdata} ({int(e0) - m})%Z {dl2} {tl2} ({int(e_after) - m})%Z")
 
 
 def labels_case(col, desc, before, after, inds, transposed):
@@ -720,10 +743,13 @@ def operator_case(ctx, col, stream, n):
     dims = [phys[s] for s in where]
     G, gclass, unitary = build_gate(rng, dims)
     which = rng.choice([None, "upper", "lower", "sandwich", "both"])
-    variant = rng.choice(["plain", "plain", "transpose", "dagger"])
+    rng.choice(VARIANTS)
+    variant = VARIANTS[n % 4]
+    if variant != "plain":
+        G, gclass, unitary = asym_gate(rng, dims, G, gclass, unitary)
     contract = rng.choice([False, True])
     api = rng.choice(["gate", "gate", "gate_sandwich_inds"])
-    kw = {"transpose": True} if variant == "transpose" else ({"dagger": True} if variant == "dagger" else {})
+    kw = kw_of(variant)
     desc = {"stream": stream, "n": n, "geometry": st["kind"], "sites": len(sites), "phys": [phys[s] for s in sites],
             "where": [str(w) for w in where], "gate": gclass, "which": str(which), "variant": variant,
             "contract": mkey(contract), "api": api}
@@ -755,7 +781,7 @@ def operator_case(ctx, col, stream, n):
         U, Lw = G, G.conj()
     elif variant == "transpose":
         U, Lw = G.T, G.conj().T
-    else:
+    else:  # dagger, with or without transpose: G^dagger X G
         U, Lw = G.conj().T, G.T
     v = dense_of(before, outs)
     gates = []  # (labels acted on, effective matrix)
@@ -827,7 +853,8 @@ def oracle_case(ctx, col, stream, n):
     api = "gate"
     variant = "plain"
     if contract in (False, True, "split", "reduce-split", "split-gate", "swap-split-gate", "auto-split-gate") and rng.random() < 0.4:
-        variant = rng.choice(["transpose", "dagger"])
+        variant = rng.choice(["transpose", "dagger", "both"])
+        G, gclass, unitary = asym_gate(rng, dims, G, gclass, unitary)
     if is1d and ng == 2 and contract == "swap+split" and rng.random() < 0.5:
         api = "gate_with_auto_swap"
         opts["swap_back"] = rng.random() < 0.5
@@ -840,7 +867,7 @@ def oracle_case(ctx, col, stream, n):
     ptag = rng.choice(["sites", "register", False, True])
     inds = tuple(tn.site_ind(s) for s in where)
     outs = tuple(tn.site_ind(s) for s in sites)
-    kw = {"transpose": True} if variant == "transpose" else ({"dagger": True} if variant == "dagger" else {})
+    kw = kw_of(variant)
     desc = {"stream": stream, "n": n, "geometry": st["kind"], "sites": len(sites), "phys": [phys[s] for s in sites],
             "where": [str(w) for w in where], "gate": gclass, "api": api, "variant": variant, "contract": mkey(contract),
             "opts": {k: v for k, v in opts.items()}, "propagate_tags": mkey(ptag), "exponent": st["e0"]}
@@ -930,8 +957,10 @@ def simple_case(ctx, stream, n):
     where = pick_where(rng, sites, k=rng.choice([1, 2, 2, 2]))
     dims = [phys[s] for s in where]
     G, gclass, _ = build_gate(rng, dims)
-    variant = rng.choice(["plain", "plain", "transpose", "dagger"])
-    kw = {"transpose": True} if variant == "transpose" else ({"dagger": True} if variant == "dagger" else {})
+    variant = VARIANTS[n % 4]
+    if variant != "plain":
+        G, gclass, _ = asym_gate(rng, dims, G, gclass, False)
+    kw = kw_of(variant)
     gauges = {}
     for ix in tn.inner_inds():
         if rng.random() < 0.5:
@@ -976,6 +1005,227 @@ def simple_case(ctx, stream, n):
         return
     if got.shape != want.shape or not np.allclose(got, want, rtol=1e-9, atol=1e-9 * max(1.0, np.abs(want).max())):
         ctx.violation(f"{keyp}:value", "state (network with gauges inserted) after gate_simple != operator @ state before", desc)
+
+
+def _connected_pair(rng, tn, sites):
+    pairs = [(a, b) for a in sites for b in sites if a != b and
+             len(set(tn[tn.site_tag(a)].inds) & set(tn[tn.site_tag(b)].inds)) == 1]
+    return rng.choice(pairs) if pairs else None
+
+
+def _opt_call(ctx, api, desc, obj, call, inplace, outs, want, keyp, tol_scale=1.0, expect_raise=False):
+    """one call of an entry point with one full option assignment: value, outer labels, in-place semantics"""
+    ctx.count((api, json.dumps(desc, sort_keys=True, default=str)), True)
+    ctx.bump("options:" + api)
+    d_before = dense_of(obj, outs)
+    nt = obj.num_tensors
+    try:
+        with warnings.catch_warnings():
+            warnings.simplefilter("ignore")
+            res = call(obj)
+    except Exception as e:
+        if not expect_raise:
+            ctx.violation(f"{keyp}:raised", f"{api} raised {type(e).__name__}: {str(e)[:140]}", desc)
+        return
+    if expect_raise:
+        got = dense_of(res, outs)
+        if got.shape != want.shape or not np.allclose(got, want, rtol=1e-9, atol=1e-9 * max(1.0, np.abs(want).max())):
+            ctx.violation(f"{keyp}:misapplied", f"{api}: a mode this geometry / arity does not accept neither raised nor applied the operator", desc)
+        return
+    if inplace:
+        if res is not obj:
+            ctx.violation(f"{keyp}:inplace_returns_other_object", f"{api}(inplace=True) did not return the object it modified", desc)
+            return
+    else:
+        if res is obj or obj.num_tensors != nt or not np.array_equal(dense_of(obj, outs), d_before):
+            ctx.violation(f"{keyp}:input_modified", f"{api}(inplace=False) modified / returned its input", desc)
+            return
+    if set(res.outer_inds()) != set(outs):
+        ctx.violation(f"{keyp}:outer_labels", f"{api} changed the outer labels", desc)
+        return
+    got = dense_of(res, outs)
+    if got.shape != want.shape or not np.allclose(got, want, rtol=1e-9, atol=1e-9 * tol_scale * max(1.0, np.abs(want).max())):
+        err = float(np.abs(got - want).max()) if got.shape == want.shape else "shape"
+        ctx.violation(f"{keyp}:value", f"{api}: dense(after) != effective operator @ dense(before) [max err {err}]", desc)
+
+
+def options_stream(ctx):
+    """EVERY combination of the boolean / enum options of each gating entry point, with complex gates that
+    tell G, G^T, conj G and G^dagger apart (oracle: plain numpy embedding, tolerance 1e-9, cutoff=0)"""
+    import quimb.tensor as qtn
+
+    TF = (False, True)
+    for rep in range(ctx.n(1, 5)):
+        rng = random.Random(f"{ctx.seed}:options:{rep}")
+        # ---- vector-like networks
+        for kind in ("mps", "mps_cyclic", "peps", "graph"):
+            st = build_state(rng, kind=kind, big=False)
+            while len(st["sites"]) < 3:
+                st = build_state(rng, kind=kind, big=False)
+            tn0, sites, phys, is1d = st["tn"], st["sites"], st["phys"], st["is1d"]
+            outs = tuple(tn0.site_ind(s) for s in sites)
+            dall = [phys[s] for s in sites]
+            d0 = dense_of(tn0, outs)
+            for ng in (1, 2):
+                where = (rng.choice(sites),) if ng == 1 else _connected_pair(rng, tn0, sites)
+                if where is None:
+                    continue
+                dims = [phys[s] for s in where]
+                G, gclass, _ = asym_gate(rng, dims, *build_gate(rng, dims, gclass="gauss"))
+                pos = [sites.index(s) for s in where]
+                inds = tuple(tn0.site_ind(s) for s in where)
+                wants = {v: apply_on_axes(eff_gate(G, **kw_of(v)), dall, pos, d0) for v in VARIANTS}
+                base = {"stream": "options", "rep": rep, "geometry": kind, "phys": dall, "where": [str(w) for w in where], "gate": gclass}
+                facts = geometry_facts(tn0, inds, G)
+                # gate_inds: contract x transpose x dagger x tags x inplace
+                for c, v, tags, ip in itertools.product(MODES[:7], VARIANTS, (None, ["G"]), TF):
+                    desc = {**base, "api": "gate_inds", "contract": mkey(c), "variant": v, "tags": tags, "inplace": ip}
+                    _opt_call(ctx, "gate_inds", desc, tn0.copy(),
+                              lambda t, c=c, v=v, tags=tags, ip=ip: t.gate_inds(G, inds, contract=c, tags=tags, inplace=ip, cutoff=0.0, **kw_of(v)),
+                              ip, outs, wants[v], f"gate_inds:options:variant={v}:contract={mkey(c)}")
+                # gate: contract x transpose x dagger x propagate_tags x tags x inplace
+                for c in (MODES if is1d else MODES[:7]):
+                    mps_route = c in ("swap+split", "nonlocal", "auto-mps") and ng > 1
+                    # the swap / sub-MPO routes offer no dagger; 'nonlocal' offers transpose
+                    vs = (["plain", "transpose"] if (c == "nonlocal") else ["plain"]) if mps_route else VARIANTS
+                    for v, ptag, tags, ip in itertools.product(vs, ("sites", "register", False, True), (None, ["G"]), TF):
+                        desc = {**base, "api": "gate", "contract": mkey(c), "variant": v, "propagate_tags": mkey(ptag), "tags": tags, "inplace": ip}
+                        _opt_call(ctx, "gate", desc, tn0.copy(),
+                                  lambda t, c=c, v=v, ptag=ptag, tags=tags, ip=ip: t.gate(
+                                      G, where if ng > 1 else where[0], contract=c, propagate_tags=ptag, tags=tags, inplace=ip,
+                                      cutoff=0.0, **kw_of(v)),
+                                  ip, outs, wants[v], f"gate:options:variant={v}:contract={mkey(c)}",
+                                  expect_raise=must_reject(is1d, c, ng, facts))
+                # gate_simple: transpose x dagger x inplace (gauges empty: the state is the network itself)
+                for v, ip in itertools.product(VARIANTS, TF):
+                    desc = {**base, "api": "gate_simple", "variant": v, "inplace": ip}
+                    if np.any(wants[v]):
+                        _opt_call(ctx, "gate_simple", desc, tn0.copy(),
+                                  lambda t, v=v, ip=ip: _simple_with_gauges(t, G, where, ip, kw_of(v)),
+                                  ip, outs, wants[v], f"gate_simple:options:variant={v}", tol_scale=10.0)
+                # gate_inds_with_tn: inplace; Tensor.gate: transpose x preserve_inds x inplace
+                for ip in TF:
+                    gt = qtn.Tensor(G.reshape(dims + dims), [f"o{i}" for i in range(ng)] + [f"i{i}" for i in range(ng)])
+                    desc = {**base, "api": "gate_inds_with_tn", "inplace": ip}
+                    _opt_call(ctx, "gate_inds_with_tn", desc, tn0.copy(),
+                              lambda t, ip=ip, gt=gt: t.gate_inds_with_tn(inds, gt, [f"i{i}" for i in range(ng)], [f"o{i}" for i in range(ng)], inplace=ip),
+                              ip, outs, wants["plain"], "gate_inds_with_tn:options")
+                if ng == 1:
+                    for tr, pres, ip in itertools.product(TF, TF, TF):
+                        desc = {**base, "api": "Tensor.gate", "transpose": tr, "preserve_inds": pres, "inplace": ip}
+                        ctx.count(("Tensor.gate", json.dumps(desc, sort_keys=True)), True)
+                        t2 = tn0.copy()
+                        (t,) = t2._inds_get(inds[0])
+                        told = t.data.copy()
+                        r = t.gate(G, inds[0], transpose=tr, preserve_inds=pres, inplace=ip)
+                        if ip != (r is t) or (not ip and not np.array_equal(np.asarray(t.data), np.asarray(told))):
+                            ctx.violation("Tensor.gate:options:inplace_semantics", "Tensor.gate in-place flag not honoured", desc)
+                            continue
+                        if not ip:
+                            t.modify(data=r.transpose(*t.inds).data)
+                        got = dense_of(t2, outs)
+                        if not np.allclose(got, wants["transpose" if tr else "plain"], rtol=1e-9, atol=1e-9):
+                            ctx.violation(f"Tensor.gate:options:transpose={tr}:value", "Tensor.gate does not apply G (G^T when transposed)", desc)
+                # 1D-only entry points
+                if is1d and ng == 2:
+                    for sb, ip in itertools.product(TF, TF):
+                        if abs(pos[0] - pos[1]) != 1:
+                            continue
+                        desc = {**base, "api": "gate_with_auto_swap", "swap_back": sb, "inplace": ip}
+                        _opt_call(ctx, "gate_with_auto_swap", desc, tn0.copy(),
+                                  lambda t, sb=sb, ip=ip: t.gate_with_auto_swap(G, where, swap_back=sb, inplace=ip, cutoff=0.0),
+                                  ip, outs, wants["plain"], f"gate_with_auto_swap:options:swap_back={sb}")
+                    for tr, method, ip in itertools.product(TF, ("direct", "lazy"), TF):
+                        desc = {**base, "api": "gate_nonlocal", "transpose": tr, "method": method, "inplace": ip}
+                        _opt_call(ctx, "gate_nonlocal", desc, tn0.copy(),
+                                  lambda t, tr=tr, method=method, ip=ip: t.gate_nonlocal(G, where, transpose=tr, method=method, inplace=ip, cutoff=0.0),
+                                  ip, outs, wants["transpose" if tr else "plain"], f"gate_nonlocal:options:transpose={tr}:method={method}")
+                    for tr, method, ip, giv, ipm in itertools.product(TF, ("direct", "lazy"), TF, TF, TF):
+                        desc = {**base, "api": "gate_with_submpo", "transpose": tr, "method": method, "inplace": ip, "where_given": giv, "inplace_mpo": ipm}
+                        mpo = qtn.MatrixProductOperator.from_dense(G, dims=dims, sites=where, L=len(sites), cutoff=0.0)
+                        _opt_call(ctx, "gate_with_submpo", desc, tn0.copy(),
+                                  lambda t, tr=tr, method=method, ip=ip, giv=giv, ipm=ipm, mpo=mpo: t.gate_with_submpo(
+                                      mpo, where=where if giv else None, transpose=tr, method=method, inplace=ip, inplace_mpo=ipm, cutoff=0.0),
+                                  ip, outs, wants["transpose" if tr else "plain"], f"gate_with_submpo:options:transpose={tr}:method={method}")
+        # ---- operator-like networks: which x contract x transpose x dagger x inplace, sandwich tag options
+        for _ in range(2):
+            st = build_operator(rng)
+            tn0, sites, phys = st["tn"], st["sites"], st["phys"]
+            nS = len(sites)
+            outs = tuple(tn0.upper_ind(s) for s in sites) + tuple(tn0.lower_ind(s) for s in sites)
+            dall = [phys[s] for s in sites] * 2
+            d0 = dense_of(tn0, outs)
+            for ng in (1, 2):
+                where = (rng.choice(sites),) if ng == 1 else _connected_pair(rng, tn0, sites)
+                if where is None:
+                    continue
+                dims = [phys[s] for s in where]
+                G, gclass, _ = asym_gate(rng, dims, *build_gate(rng, dims, gclass="gauss"))
+                pu = [sites.index(s) for s in where]
+                pl = [nS + p for p in pu]
+                up = tuple(tn0.upper_ind(s) for s in where)
+                lo = tuple(tn0.lower_ind(s) for s in where)
+                base = {"stream": "options", "rep": rep, "geometry": st["kind"], "phys": dall[:nS], "where": [str(w) for w in where], "gate": gclass}
+
+                def want_for(which, v):
+                    if which in (None, "sandwich", "both"):
+                        U, Lw = {"plain": (G, G.conj()), "transpose": (G.T, G.conj().T)}.get(v, (G.conj().T, G.T))
+                        return apply_on_axes(Lw, dall, pl, apply_on_axes(U, dall, pu, d0))
+                    return apply_on_axes(eff_gate(G, **kw_of(v)), dall, pu if which == "upper" else pl, d0)
+
+                for which, c, v, ip in itertools.product((None, "sandwich", "both", "upper", "lower"), (False, True, "split", "reduce-split"), VARIANTS, TF):
+                    desc = {**base, "api": "gate", "which": str(which), "contract": mkey(c), "variant": v, "inplace": ip}
+                    _opt_call(ctx, "opgate", desc, tn0.copy(),
+                              lambda t, which=which, c=c, v=v, ip=ip: t.gate(G, where, which=which, contract=c, inplace=ip, cutoff=0.0, **kw_of(v)),
+                              ip, outs, want_for(which, v), f"opgate:options:which={which}:variant={v}:contract={mkey(c)}")
+                for c, v, ip, tg in itertools.product((False, True, "split", "reduce-split"), VARIANTS, TF,
+                                                      ({}, {"tags": ["G"]}, {"tags_upper": ["GU"], "tags_lower": ["GL"]})):
+                    desc = {**base, "api": "gate_sandwich_inds", "contract": mkey(c), "variant": v, "inplace": ip, "tag_opts": tg}
+                    _opt_call(ctx, "gate_sandwich_inds", desc, tn0.copy(),
+                              lambda t, c=c, v=v, ip=ip, tg=tg: t.gate_sandwich_inds(G, up, lo, contract=c, inplace=ip, cutoff=0.0, **tg, **kw_of(v)),
+                              ip, outs, want_for("sandwich", v), f"gate_sandwich_inds:options:variant={v}:contract={mkey(c)}")
+
+
+def _simple_with_gauges(t, G, where, inplace, kw):
+    gauges = {}
+    r = t.gate_simple(G, where, gauges, max_bond=None, cutoff=0.0, renorm=False, inplace=inplace, **kw)
+    full = r.copy()
+    full.gauge_simple_insert(gauges)
+    if inplace:
+        # hand back the same object, carrying the state with the new gauges absorbed
+        for tid, tt in full.tensor_map.items():
+            r.tensor_map[tid].modify(data=tt.data)
+        return r
+    return full
+
+
+def nonlocal_cutoff_stream(ctx):
+    """gates whose operator-Schmidt spectrum has a small (but far from negligible) tail: with cutoff=0 the
+    sub-MPO route must still be exact (reported by another builder; proposed_fixes/C06_gate_nonlocal_cutoff.diff)"""
+    import quimb.tensor as qtn
+
+    rng = random.Random(f"{ctx.seed}:nonlocal_cutoff")
+    for n in range(ctx.n(6, 40)):
+        L = rng.randint(3, 5)
+        tn = qtn.MPS_rand_state(L, 2, seed=rng.randint(0, 10**6))
+        refill(tn, rng, False, lambda ix: 2)
+        where = tuple(rng.sample(range(L), 2))
+        eps = rng.choice([1e-6, 3e-6, 1e-7])
+        N = rand_array(rng, (4, 4), False)
+        G = np.kron(rand_array(rng, (2, 2), False) + 3 * np.eye(2), rand_array(rng, (2, 2), False) + 3 * np.eye(2)) + eps * N
+        api = rng.choice(["gate_nonlocal", "gate"])
+        outs = tuple(tn.site_ind(i) for i in range(L))
+        want = apply_on_axes(G, [2] * L, list(where), dense_of(tn, outs))
+        desc = {"stream": "nonlocal_cutoff", "n": n, "L": L, "where": list(where), "eps": eps, "api": api}
+        ctx.count(("nonlocal_cutoff", n), True)
+        with warnings.catch_warnings():
+            warnings.simplefilter("ignore")
+            after = tn.gate_nonlocal(G, where, cutoff=0.0) if api == "gate_nonlocal" else tn.gate(G, where, contract="nonlocal", cutoff=0.0)
+        got = dense_of(after, outs)
+        if not np.allclose(got, want, rtol=1e-9, atol=1e-9 * max(1.0, np.abs(want).max())):
+            ctx.violation("gate_nonlocal:cutoff=0:submpo_built_at_default_cutoff",
+                          f"gate_nonlocal(cutoff=0.0) is not exact: max err {float(np.abs(got - want).max()):.3g} "
+                          f"(relative {float(np.abs(got - want).max() / np.abs(want).max()):.3g})", desc)
 
 
 def reject_stream(ctx, col):
@@ -1146,6 +1396,8 @@ def run(ctx):
                      "C06/Exec.vo", "C06/Props.v"])
     col = Collector()
     ctx.stage(flag_stream)
+    ctx.stage(options_stream)
+    ctx.stage(nonlocal_cutoff_stream)
     ctx.stage(exact_stream, col)
     ctx.stage(oracle_stream, col)
     ctx.stage(coq_stage, col)
